@@ -78,7 +78,7 @@ def _table(run, prog, eng, fname, kind):
 
     conds = [c for p in paths for c, _, _, _ in p.conds] + [p.retval() for p in paths if p.returns() and p.retval() is not None]
     # W0 --------------------------------------------------------------------
-    offending = comparison_only(conds, is_input, allowed_ops=("==", "!=", "is", "is not"))
+    offending = comparison_only(conds, is_input, allowed_ops=("==", "!=", "is", "is not", "in", "not in"))
     if kind == "subscribe":
         # eventgroup id/counter share one wire field; only `<eventgroup id> in <declared set>` may look at it
         offending = [o for o in offending if "minver_or_counter" not in o]
